@@ -195,6 +195,12 @@ func Builtin() []Doc {
 		{MT: "image/svg+xml", Name: "builtin/contentstyletype-xsl", Src: "builtin", Data: []byte(`<svg xmlns="http://www.w3.org/2000/svg" contentStyleType="text/xsl"><style> path { fill : #ff0000 } </style><path style=" stroke : #000000 " d="M 1 1 L 2 2"/></svg>`)},
 		{MT: "image/svg+xml", Name: "builtin/contentstyletype-css", Src: "builtin", Data: []byte(`<svg xmlns="http://www.w3.org/2000/svg" contentStyleType="text/css" contentScriptType="application/ecmascript"><style> path { fill : #ff0000 } </style><path style=" stroke : #000000 " d="M 1 1 L 2 2"/></svg>`)},
 		{MT: "text/css", Name: "builtin/datauri-params", Src: "builtin", Data: []byte(`a { background : url("data:image/svg+xml;charset=utf8;x=1;y=2;z=3,%3Csvg xmlns='http://www.w3.org/2000/svg'%3E%3C/svg%3E") } b { src : url(data:font/woff2;charset=binary;v=2;w=3;base64,AAEC) }`)},
+		// every named character reference of HTML 4 (plus a few of HTML 5), in text, in quoted
+		// and unquoted attribute values, and without the semicolon: the tree's own corpora use
+		// three dozen of them
+		{MT: "text/html", Name: "builtin/html4-entities-text", Src: "builtin", Data: entityDoc(0)},
+		{MT: "text/html", Name: "builtin/html4-entities-attr", Src: "builtin", Data: entityDoc(1)},
+		{MT: "text/html", Name: "builtin/html4-entities-unquoted-nosemicolon", Src: "builtin", Data: entityDoc(2)},
 		// long runs of tokens that the minifier drops (each one a zero-length write on its way out)
 		{MT: "text/html", Name: "builtin/150-comments", Src: "builtin", Data: []byte("<p>a</p>\n" + strings.Repeat("<!-- c -->\n", 150) + "<p>b</p>")},
 		{MT: "text/xml", Name: "builtin/150-comments", Src: "builtin", Data: []byte("<r>a\n" + strings.Repeat("<!-- c -->\n", 150) + "<b/></r>")},
@@ -229,4 +235,31 @@ func Short(b []byte, n int) string {
 		s = s[:n] + "…(" + strconv.Itoa(len(b)) + " bytes)"
 	}
 	return strings.ToValidUTF8(s, "?")
+}
+
+const html4Entities = "nbsp iexcl cent pound curren yen brvbar sect uml copy ordf laquo not shy reg macr deg plusmn sup2 sup3 acute micro para middot cedil sup1 ordm raquo frac14 frac12 frac34 iquest " +
+	"Agrave Aacute Acirc Atilde Auml Aring AElig Ccedil Egrave Eacute Ecirc Euml Igrave Iacute Icirc Iuml ETH Ntilde Ograve Oacute Ocirc Otilde Ouml times Oslash Ugrave Uacute Ucirc Uuml Yacute THORN szlig " +
+	"agrave aacute acirc atilde auml aring aelig ccedil egrave eacute ecirc euml igrave iacute icirc iuml eth ntilde ograve oacute ocirc otilde ouml divide oslash ugrave uacute ucirc uuml yacute thorn yuml " +
+	"fnof Alpha Beta Gamma Delta Epsilon Zeta Eta Theta Iota Kappa Lambda Mu Nu Xi Omicron Pi Rho Sigma Tau Upsilon Phi Chi Psi Omega " +
+	"alpha beta gamma delta epsilon zeta eta theta iota kappa lambda mu nu xi omicron pi rho sigmaf sigma tau upsilon phi chi psi omega thetasym upsih piv " +
+	"bull hellip prime Prime oline frasl weierp image real trade alefsym larr uarr rarr darr harr crarr lArr uArr rArr dArr hArr " +
+	"forall part exist empty nabla isin notin ni prod sum minus lowast radic prop infin ang and or cap cup int there4 sim cong asymp ne equiv le ge sub sup nsub sube supe oplus otimes perp sdot " +
+	"lceil rceil lfloor rfloor lang rang loz spades clubs hearts diams " +
+	"quot amp lt gt apos OElig oelig Scaron scaron Yuml circ tilde ensp emsp thinsp zwnj zwj lrm rlm ndash mdash lsquo rsquo sbquo ldquo rdquo bdquo dagger Dagger permil lsaquo rsaquo euro " +
+	"plus colon comma period excl num dollar percnt lpar rpar ast sol semi equals quest commat lsqb rsqb bsol lowbar grave lcub rcub verbar vert Tab NewLine check cross star phone female male hyphen dash nbsp"
+
+func entityDoc(kind int) []byte {
+	var b strings.Builder
+	b.WriteString("<!DOCTYPE html>\n<title>e</title>\n")
+	for _, n := range strings.Fields(html4Entities) {
+		switch kind {
+		case 0:
+			b.WriteString("<p>&" + n + "; x &" + n + ";</p>\n")
+		case 1:
+			b.WriteString("<a title=\"&" + n + ";\" alt='a&" + n + ";b'>x</a>\n")
+		default:
+			b.WriteString("<a title=&" + n + "; alt=a&" + n + ">&" + n + " y</a>\n")
+		}
+	}
+	return []byte(b.String())
 }
